@@ -118,18 +118,24 @@ def float_elem(dt, specials=True, mag=256):
     return st.one_of(small, dy, sp)
 
 
+WIDE32 = [0.1, 3e38, -3e38, 1e-38, 1 / 3, 16777217.0, 1e10]
+WIDE64 = [0.1, 1e300, -1e300, 1e-300, 1 / 3, 9007199254740993.0, 1e10]
+
+
 @_cache
-def elem(dt, specials=True, mag=None):
+def elem(dt, specials=True, mag=None, wide=False):
     if dt == "bool":
         return st.booleans()
     if dt in _INFO:
         return int_elem(dt, mag)
+    if wide:   # only for sub-checks whose oracle involves no re-ordered arithmetic: any float is as good as any other
+        return st.one_of(float_elem(dt, specials, 256), st.sampled_from(WIDE32 if dt == "float32" else WIDE64))
     return float_elem(dt, specials, min(mag or 256, 256))   # exactly representable sums in float32 whatever the order of summation
 
 
 @_cache
-def flat_values(dt, n, specials=True, mag=None, dup=False):
-    e = elem(dt, specials, mag)
+def flat_values(dt, n, specials=True, mag=None, dup=False, wide=False):
+    e = elem(dt, specials, mag, wide)
     if dup:
         # few distinct values -> duplicates and runs
         return st.tuples(st.lists(e, min_size=3, max_size=3), st.lists(st.integers(0, 2), min_size=n, max_size=n)).map(
@@ -138,7 +144,7 @@ def flat_values(dt, n, specials=True, mag=None, dup=False):
 
 
 @st.composite
-def ragged(draw, tier, dts=ALL_DT, min_rows=0, min_len=0, specials=True, mag=None, dup=None, max_rows=None, max_len=None):
+def ragged(draw, tier, dts=ALL_DT, min_rows=0, min_len=0, specials=True, mag=None, dup=None, max_rows=None, max_len=None, wide=False):
     """{'lens': [...], 'dt': str, 'vals': flat list}"""
     lens = draw(lengths(tier, min_rows=min_rows, min_len=min_len, max_rows=max_rows, max_len=max_len))
     dt = draw(st.sampled_from(dts))
@@ -146,7 +152,7 @@ def ragged(draw, tier, dts=ALL_DT, min_rows=0, min_len=0, specials=True, mag=Non
         d = draw(st.integers(0, 3)) == 0
     else:
         d = dup
-    vals = draw(flat_values(dt, sum(lens), specials=specials, mag=mag, dup=d))
+    vals = draw(flat_values(dt, sum(lens), specials=specials, mag=mag, dup=d, wide=wide))
     return {"lens": lens, "dt": dt, "vals": vals}
 
 
